@@ -8,6 +8,8 @@ import (
 // MapKeys returns the keys of m in a deterministic order (map iteration order is
 // nondeterminism the explorer must own). With Exec.MapReverse the order is reversed,
 // which harnesses use as a second explored order.
+//
+//go:norace
 func MapKeys[M ~map[K]V, K comparable, V any](m M) []K {
 	keys := make([]K, 0, len(m))
 	for k := range m {
